@@ -155,6 +155,10 @@ class ThreadsPart(object):
                                                         (1, "tuple")])])
         if i >= pre and W.chance("idle", 2, 3):
           script.append(["idle", W.pick("idlek", [1, 3, 10, 30])])
+        if consumer == "audio" and W.chance("pausing", 1, 4):
+          script.append([W.pick("pr", ["pause", "resume", "pause"])])
+          if W.chance("idle2", 1, 2):
+            script.append(["idle", W.pick("idlek", [1, 3, 10])])
       return {"part": part, "keep": keep, "pre": min(pre, nev),
               "consumer": consumer, "nsamples": nsamples, "script": script,
               "chunk": W.pick("chunk", [1, 2, 4]), "knobs": knobs}
@@ -163,6 +167,8 @@ class ThreadsPart(object):
       script.append(["set"])
       if W.chance("idle", 2, 3):
         script.append(["idle", W.pick("idlek", [1, 3, 10, 30])])
+      if consumer == "audio" and W.chance("pausing", 1, 4):
+        script.append([W.pick("pr", ["pause", "resume", "pause"])])
     return {"part": part, "mode": mode, "consumer": consumer,
             "nsamples": nsamples, "script": script,
             "chunk": W.pick("chunk", [1, 2, 4]), "knobs": knobs}
@@ -243,8 +249,8 @@ class ThreadsPart(object):
       if workload["consumer"] == "audio":
         aio = lio.AudioIO(True)
         box["aio"] = aio
-        aio.play(ls.Stream(log).limit(N), chunk_size=workload["chunk"],
-                 dfmt="i")
+        box["player"] = aio.play(ls.Stream(log).limit(N),
+                                 chunk_size=workload["chunk"], dfmt="i")
         return None
 
       def body():
@@ -259,7 +265,17 @@ class ThreadsPart(object):
       if cons is not None:
         sched.join(cons)
       else:
+        if box.get("player") is not None:
+          box["player"].play()      # a paused player would never finish
         box["aio"].close()
+
+    def player_control(op):
+      # the main thread also pauses / resumes the audio player that consumes
+      # the stream (additions and assignments pile up meanwhile)
+      th = box.get("player")
+      if th is not None:
+        (th.pause if op[0] == "pause" else th.play)()
+        res.counters["probe.consumer-%sd-during-playback" % op[0]] += 1
 
     def main_mix():
       mix = ls.Streamix(keep=workload["keep"], zero=0)
@@ -273,6 +289,10 @@ class ThreadsPart(object):
           if not started:
             continue
           sched.sleep(op[1], "idle")
+          continue
+        if op[0] in ("pause", "resume"):
+          if started:
+            player_control(op)
           continue
         if not started and nadd >= workload["pre"]:
           cons = start_consumer(mix)
@@ -313,6 +333,9 @@ class ThreadsPart(object):
       for op in workload["script"]:
         if op[0] == "idle":
           sched.sleep(op[1], "idle")
+          continue
+        if op[0] in ("pause", "resume"):
+          player_control(op)
           continue
         v += 13
         a = sched.stamp()
